@@ -49,12 +49,13 @@ NormalEntropy(sig) == LAdd(LAdd(LRat(RNorm(1, 2)), L2Pi(RNorm(1, 2))), LnRat(sig
 Ks == << <<"rat", 1, 1>>, <<"rat", 2, 1>>, <<"rat", 1, 3>>, <<"rat", 5, 2>>, <<"rat", 7, 1>>, <<"rat", 3, 11>>,
          <<"pow2", 3>>, <<"pow2", -5>>, <<"pow2", 20>>, <<"pow2", -40>>, <<"pow2", 80>>, <<"pow2", 115>>,
          <<"rat", 9, 4>>, <<"pow2", -115>>, <<"rat", 1, 13>>, <<"pow2", 57>> >>
-Zs == << RZero, ROne, R(-1), RNorm(1, 2), RNorm(-3, 2), R(2), RNorm(5, 2), R(-3) >>
+\* (the last four: actions far out in the tail, as stale off-policy actions are under a narrow policy)
+Zs == << RZero, ROne, R(-1), RNorm(1, 2), RNorm(-3, 2), R(2), RNorm(5, 2), R(-3), R(40), RNorm(-401, 2), R(1000), R(-150) >>
 Sigmas == << <<1, 1>>, <<1, 2>>, <<2, 1>>, <<1, 8>>, <<3, 2>>, <<1, 32>>, <<5, 1>>, <<3, 4>> >>
 MinStds == << <<1, 1024>>, <<1, 8>>, <<1, 2>>, <<1, 1>> >>
 VarScales == << <<1, 1>>, <<1, 2>>, <<2, 1>>, <<1, 4>> >>
 
-DimOf(g, o) == [kk |-> Ks[((g[o + 1] + 12 * (g[o + 2] % 2)) % 16) + 1], z |-> Zs[(g[o + 3] % 8) + 1], sig |-> Sigmas[(g[o + 4] % 8) + 1]]
+DimOf(g, o) == [kk |-> Ks[((g[o + 1] + 12 * (g[o + 2] % 2)) % 16) + 1], z |-> Zs[(g[o + 3] % 12) + 1], sig |-> Sigmas[(g[o + 4] % 8) + 1]]
 
 Init ==
   /\ phase = "init" /\ out = <<>>
